@@ -31,8 +31,8 @@ func fieldIndex(t reflect.Type) map[string]int {
 }
 
 // UnionHook, when set, builds the value of a union attribute (an interface-typed struct field with
-// methods) from a {"$union": alternative, "$value": v} node. The gRPC driver sets it (it knows the Go
-// types of the alternatives from its registry); when nil unions are refused as before.
+// methods) from a {"$union": alternative, "$value": v} node. The gRPC driver and the HTTP driver (union.go) set
+// it (they know the Go types of the alternatives from their registries); when nil unions are refused.
 var UnionHook func(dst reflect.Value, field, alt string, val any) error
 
 // Build constructs a value of type t from a canonical tree.
@@ -261,6 +261,12 @@ func canon(v reflect.Value, depth int) any {
 				continue
 			}
 			c := canon(v.Field(i), depth+1)
+			if fv := v.Field(i); UnionAltHook != nil && fv.Kind() == reflect.Interface && fv.Type().NumMethod() > 0 && !fv.IsNil() {
+				// a union attribute: name the alternative (design attribute name), not the Go type (union.go)
+				if alt := UnionAltHook(f.Name, fv.Elem().Type()); alt != "" {
+					c = map[string]any{"$union": alt, "$value": canon(fv.Elem(), depth+1)}
+				}
+			}
 			if c != nil {
 				o[spec.Norm(f.Name)] = c
 			}
